@@ -86,9 +86,9 @@ def gen_pattern(rng, max_nodes=5):
         if r < 0.78:
             if shared_leaf and rng.random() < 0.3:
                 return copy.deepcopy(rng.choice(shared_leaf))
-            k = ["K", next(ids), rng.choice([0, 1, 1, 2, 1000, [1, 2], [1], [], [1000, 0]])]
-            if rng.random() < 0.15:
-                k += rng.choice([[1e-2, 1e-8], [1e-5, 1e-3], [1e-8, 1e-5], [0.0, 0.0]])
+            k = ["K", next(ids), rng.choice([0, 1, 1, 2, 1000, 1.0, 0.5, 1000.0, 0.0, [1, 2], [1], [], [1000, 0], [1.0, 2]])]
+            if rng.random() < 0.2:
+                k += rng.choice([[1e-2, 1e-8], [1e-5, 1e-3], [1e-8, 1e-5], [0.0, 0.0], [1e-5, None], [None, 1e-5]])
             shared_leaf.append(k)
             return copy.deepcopy(k)
         if r < 0.82:
@@ -177,7 +177,15 @@ def gen_pattern(rng, max_nodes=5):
     if rng.random() < 0.15:
         inputs.append("unused")
     rng.shuffle(inputs)
-    return {"cond": rng.random() > 0.03, "inputs": inputs, "nodes": nodes, "outputs": outs}
+    p = {"cond": rng.random() > 0.03, "inputs": inputs, "nodes": nodes, "outputs": outs}
+    if rng.random() < 0.25 and all(n["dom"][0] == "e" for n in nodes):
+        # written as a pattern function (entry point _to_graph_pattern); attribute variables become parameters
+        for n in nodes:
+            for _, a in n["attrs"]:
+                if a[0] == "v" and a[1] is not None and not a[2] and a[1] not in p["inputs"]:
+                    p["inputs"].append(a[1])
+        p["via"] = "callable"
+    return p
 
 
 # --------------------------------------------------------------------------- graphs from a pattern
@@ -206,7 +214,7 @@ def instantiate(p, rng, fidelity=0.93):
     def near(x):
         # a value within the default tolerances (rel 1e-5 / abs 1e-8) but outside swapped ones for large x,
         # and for 0 a value outside the default abs_tol but inside 1e-5
-        return x + x * 1e-6 if x != 0 else 5e-6
+        return x + x * 2e-6 if x != 0 else 5e-6
 
     def const_for(c):
         v = next(vids)
@@ -572,8 +580,9 @@ def tolerance_cases():
     out = []
     x = ["V", 1, "x", False, None]
     for op in ("Mul", "Add"):
-        for v, hosts in ((1000, [1000, 1000.001, 1001]), (0, [0, 5e-6, 0.02])):
-            for tol in (None, [1e-2, 1e-8], [1e-8, 1e-5]):
+        for v, hosts in ((1000, [1000, 1000.001, 1001]), (0, [0, 5e-6, 0.02]),
+                         (1000.0, [1000, 1000.001, 1001]), (0.0, [0, 5e-6, 0.02])):
+            for tol in (None, [1e-2, 1e-8], [1e-8, 1e-5], [1e-5, None], [None, 1e-5]):
                 k = ["K", 2, v] + (tol or [])
                 for pins in ([x, k], [k, x]):
                     p = {"cond": True, "inputs": ["x"],
